@@ -58,6 +58,89 @@ func main() {
 	}
 }
 
+// untypedConsts: names declared as `const x = <literal>` (no type) in the file: copying them into a
+// temporary would fix their type to the default one.
+func untypedConsts(f *ast.File) map[string]bool {
+	out := map[string]bool{}
+	for _, d := range f.Decls {
+		gd, ok := d.(*ast.GenDecl)
+		if !ok || gd.Tok != token.CONST {
+			continue
+		}
+		for _, sp := range gd.Specs {
+			vs := sp.(*ast.ValueSpec)
+			if vs.Type == nil {
+				for _, n := range vs.Names {
+					out[n.Name] = true
+				}
+			}
+		}
+	}
+	return out
+}
+
+func rewriteGoStmts(f *ast.File) int {
+	consts := untypedConsts(f)
+	n := 0
+	var visitList func(list []ast.Stmt)
+	rewrite := func(gs *ast.GoStmt) ast.Stmt {
+		n++
+		call := gs.Call
+		goCall := func(body *ast.FuncLit) ast.Stmt {
+			return &ast.ExprStmt{X: &ast.CallExpr{Fun: &ast.SelectorExpr{X: ast.NewIdent("vshimrt"), Sel: ast.NewIdent("Go")}, Args: []ast.Expr{body}}}
+		}
+		if fl, ok := call.Fun.(*ast.FuncLit); ok && len(call.Args) == 0 {
+			return goCall(fl)
+		}
+		var stmts []ast.Stmt
+		tmp := func(e ast.Expr, name string) ast.Expr {
+			switch x := e.(type) {
+			case *ast.BasicLit:
+				return e
+			case *ast.Ident:
+				if consts[x.Name] || x.Name == "nil" || x.Name == "true" || x.Name == "false" {
+					return e
+				}
+			}
+			id := ast.NewIdent(name)
+			stmts = append(stmts, &ast.AssignStmt{Lhs: []ast.Expr{id}, Tok: token.DEFINE, Rhs: []ast.Expr{e}})
+			return ast.NewIdent(name)
+		}
+		fun := tmp(call.Fun, fmt.Sprintf("vshimGoF%d", n))
+		args := make([]ast.Expr, len(call.Args))
+		for i, a := range call.Args {
+			args[i] = tmp(a, fmt.Sprintf("vshimGoA%d_%d", n, i))
+		}
+		inner := &ast.CallExpr{Fun: fun, Args: args, Ellipsis: call.Ellipsis}
+		body := &ast.FuncLit{Type: &ast.FuncType{Params: &ast.FieldList{}}, Body: &ast.BlockStmt{List: []ast.Stmt{&ast.ExprStmt{X: inner}}}}
+		stmts = append(stmts, goCall(body))
+		return &ast.BlockStmt{List: stmts}
+	}
+	visitList = func(list []ast.Stmt) {
+		for i, st := range list {
+			if gs, ok := st.(*ast.GoStmt); ok {
+				list[i] = rewrite(gs)
+			}
+		}
+	}
+	ast.Inspect(f, func(nd ast.Node) bool {
+		switch x := nd.(type) {
+		case *ast.BlockStmt:
+			visitList(x.List)
+		case *ast.CaseClause:
+			visitList(x.Body)
+		case *ast.CommClause:
+			visitList(x.Body)
+		case *ast.LabeledStmt:
+			if gs, ok := x.Stmt.(*ast.GoStmt); ok {
+				x.Stmt = rewrite(gs)
+			}
+		}
+		return true
+	})
+	return n
+}
+
 func die(err error) {
 	fmt.Fprintln(os.Stderr, "instrument:", err)
 	os.Exit(2)
@@ -216,6 +299,14 @@ func rewrite(path string, isRoot bool) error {
 			}
 			return true
 		})
+	}
+	// go statements -> vshimrt.Go(func() { ... }): a goroutine started by the code under test while the
+	// scheduler is attached becomes a scheduled thread. The function value and the arguments are evaluated
+	// at the statement, as the language says (temporaries), except literals and untyped constants.
+	nGo := rewriteGoStmts(f)
+	if nGo > 0 {
+		counts["go statement"] += nGo
+		usesRT = true
 	}
 	if usesRT {
 		changed = true
